@@ -46,6 +46,7 @@ fn pool() -> &'static Mutex<Vec<Worker>> {
             let (dtx, drx) = channel::<Done>();
             std::thread::Builder::new()
                 .name(format!("lockstep-worker-{i}"))
+                .stack_size(32 << 20)
                 .spawn(move || {
                     for job in jrx {
                         match job {
